@@ -73,6 +73,13 @@ def zone_midpoint_check(zone, cm, P):
             out.append(('utm', 'undecided', 'cannot isolate the UTM branch of the zone / central-meridian formulas', None, None))
         else:
             auto_utm, cm_utm = auto_split[1], cm_split[1]
+            # a wrap of the zone number by a whole number of zones under a test (longitude +180 -> zone 1): the strip formula is the
+            # unwrapped arm; that the wrapped value is a valid zone is decided on the lattice (zone_table_rule)
+            wrap = ite_parts(auto_utm)
+            if wrap is not None and isinstance(wrap[1], Rat) and isinstance(wrap[2], Rat):
+                d_ = wrap[1] - wrap[2]
+                if not any(alg.TABLE.atoms[k_].kind == 'sym' and alg.TABLE.atoms[k_].name == 'lon' for k_ in d_.atoms(deep=True)):
+                    auto_utm = wrap[2]
             arg = fn_parts(auto_utm, 'int')
             shift = C(0)
             if arg is None:
@@ -1332,6 +1339,9 @@ def zone_table_rule(repo, rep):
                 F(1409, 10), F(141), F(147), F(1506, 10), F(17399, 100), F(174), F(177), F(179999999, 10 ** 6)):
         z, cm = utm(lon)
         cases.append(('utm', lon, 0, z, cm))
+    # +180 is what grid2geo and xyz2llh return for the antimeridian: the same meridian as -180, the western edge of zone 1 (not a zone 61,
+    # which grid2geo refuses - the chain geographic -> grid -> geographic would not close)
+    cases.append(('utm', F(180), 0, F(1), F(-177)))
     for lon, z in ((F(147), 55), (F(1506, 10), 55), (F(-177), 1), (F(-1795, 10), 2), (F(1795, 10), 60), (F(3), 31), (F(3), 30)):
         cases.append(('utm', lon, z, F(z), F(-183 + 6 * z)))
     for lon in (F(140), F(1409, 10), F(141), F(142) - F(1, 10 ** 6), F(142), F(1506, 10), F(1531, 10), F(1485, 10)):
@@ -1751,3 +1761,74 @@ def domain_guards(repo, rep, mod, q, symnames, domain, what, integer=(), opaque=
     n = guards.guard_rule(rep, 'R-GUARD', f, ev.raise_conds, domain, what, lambda nd: where(f, nd), integer=integer, suffix=suffix)
     if n == 0:
         rep.holds('R-GUARD', 'R-GUARD::%s::%s::no-own-tests%s' % (f.module.relpath, q, suffix), where(f, f.node), '%s has no raising input test of its own' % q)
+
+
+_ITER_EXAMPLE = '''
+def pick(grids, lat):
+    found = (g for g in grids if g.s_lat <= lat < g.n_lat)
+    first = next(found, None)
+    if first is None:
+        return None
+    return min(found, key=lambda g: g.lat_inc, default=first)
+'''
+
+
+def _iterator_reuse(fnode):
+    """names of fnode bound ONCE to a one-shot iterator (generator expression, map / filter / zip / iter / reversed / enumerate, itertools) and
+    read at two places that one execution can both reach -> [(name, binding, first use, second use)]"""
+    from ..purity import _one_shot
+    binds = {}
+    for n in ast.walk(fnode):
+        if isinstance(n, ast.Assign) and len(n.targets) == 1 and isinstance(n.targets[0], ast.Name):
+            binds.setdefault(n.targets[0].id, []).append(n)
+        elif isinstance(n, (ast.AugAssign, ast.AnnAssign)) and isinstance(n.target, ast.Name):
+            binds.setdefault(n.target.id, []).append(n)
+        elif isinstance(n, (ast.For, ast.comprehension)):
+            for t in ast.walk(n.target):
+                if isinstance(t, ast.Name):
+                    binds.setdefault(t.id, []).append(n)
+    # exclusive arms: (If node id) -> sets of node ids in body / orelse
+    arms = []
+    for n in ast.walk(fnode):
+        if isinstance(n, ast.If):
+            b = set(id(x) for s in n.body for x in ast.walk(s))
+            o = set(id(x) for s in n.orelse for x in ast.walk(s))
+            arms.append((b, o))
+    out = []
+    for name, bs in sorted(binds.items()):
+        if len(bs) != 1 or not isinstance(bs[0], ast.Assign) or not _one_shot(bs[0].value):
+            continue
+        uses = sorted((n for n in ast.walk(fnode) if isinstance(n, ast.Name) and n.id == name and isinstance(n.ctx, ast.Load)),
+                      key=lambda n: (n.lineno, n.col_offset))
+        for i in range(len(uses)):
+            for j in range(i + 1, len(uses)):
+                a, b = uses[i], uses[j]
+                if any((id(a) in x and id(b) in y) or (id(a) in y and id(b) in x) for x, y in arms):
+                    continue
+                out.append((name, bs[0], a, b))
+                break
+            else:
+                continue
+            break
+    return out
+
+
+def iterator_reuse_rule(repo, rep, modnames):
+    """a generator expression / map / filter / zip object can be walked ONCE: a probe (`next(it, None)`, `any(it)`, a first loop) takes elements
+    away from whatever reads it afterwards - the selection that follows no longer sees every candidate.  One instance per function of the
+    listed modules; the detector is run on a built-in example on every run (the expected count on the repository is zero)."""
+    ex = ast.parse(_ITER_EXAMPLE).body[0]
+    if len(_iterator_reuse(ex)) != 1:
+        raise AnalysisError('iterator-reuse detector does not fire on its built-in example')
+    for mn in modnames:
+        m = repo.module(mn)
+        for f in m.all_functions():
+            key = 'R-STATE::%s::%s::one-shot-iterator' % (m.relpath, f.qualname)
+            hits = _iterator_reuse(f.node)
+            if hits:
+                name, b, u1, u2 = hits[0]
+                rep.violated('R-STATE', key, where(f, u2), '`%s` is a one-shot iterator (`%s`) and is read twice on one path (line %d: `%s`, line %d): what the first use takes '
+                             'out of it is missing for the second - a probe for "empty" removes the first candidate from the selection that follows'
+                             % (name, stmt_text(b)[:70], u1.lineno, name, u2.lineno), expected='a list / tuple, or one single pass', actual=stmt_text(b)[:100])
+            else:
+                rep.holds('R-STATE', key, where(f, f.node), 'no one-shot iterator is read twice', work=False)
